@@ -59,7 +59,7 @@ func (x *exec) menu(core bool) []string {
 		if pend {
 			m = append(m, "r:success", "r:403")
 		}
-		if x.m.appClosed && x.old == nil && !pend && x.reader == nil && x.pendingWriters() == 0 && len(x.writers) == 0 {
+		if x.m.appClosed && x.old == nil && !pend && x.reader == nil && x.pendingWriters() == 0 {
 			m = append(m, "realloc")
 		}
 
@@ -94,6 +94,11 @@ func (x *exec) menu(core bool) []string {
 	}
 	if x.pendingBind() != nil {
 		m = append(m, "in:chan:requested")
+	}
+	if x.old != nil && x.oldNum != 0 {
+		if _, taken := x.m.owner[x.oldNum]; !taken {
+			m = append(m, "in:chan:stale")
+		}
 	}
 	// an unanswered transaction: to the instant just after it has failed (before the periodic timers act on the failure)
 	for _, p := range x.out {
